@@ -110,7 +110,7 @@ func c18Run(w *W) {
 	if peerMode == "stalled" || peerMode == "leaving" {
 		mn.Endpoint(addr).SendCap = 1
 	}
-	if err := s.Listen(addr); err != nil {
+	if err := w.ListenOn(s, addr); err != nil {
 		w.Failf("HARNESS/listen", "%v", err)
 		return
 	}
